@@ -1173,6 +1173,7 @@ int main(int argc, char **argv)
       SEPS = {" ", "", "\n", "/*c*/", " //c\n"};
     n_units = ALPHA.size() + 1;
     fn = unit_tokens;
+    opt.rlimit_as_mb = 8192;
     opt.crash_key = [](uint64_t, const std::string &text, const std::string &what)
     {
       std::string in = unprintable(text.substr(7));
@@ -1187,6 +1188,9 @@ int main(int argc, char **argv)
     build_parse(th);
     n_units = 64;
     fn = unit_parse;
+    // the reader does not free its tokens and a worker of the thorough tier parses several million texts and keeps their
+    // AST hashes: the per-process limit only guards against runaway growth (1 GB made workers die of bad_alloc)
+    opt.rlimit_as_mb = 8192;
     opt.crash_key = [](uint64_t, const std::string &, const std::string &what)
     { return "C16:parser:" + std::string(what == "hang" ? "hang" : "abort") + "-on-valid-program"; };
   }
